@@ -517,8 +517,8 @@ func RunC15Traces(ctx *core.Ctx) {
 	defer runtime.GOMAXPROCS(prev)
 	procsList := []int{1, 2, 3, 4, 8, 16}
 	jitters := []int{0, 60, 300, 800}
-	sessions := ctx.Scale(300, 4000)
-	deadline := time.Now().Add(min(time.Duration(ctx.Scale(40, 400))*time.Second, c15Remaining(ctx)))
+	sessions := ctx.Scale(300, 2000)
+	deadline := time.Now().Add(min(time.Duration(ctx.Scale(40, 200))*time.Second, c15Remaining(ctx)))
 	for s := 0; s < sessions && time.Now().Before(deadline); s++ {
 		procs := procsList[s%len(procsList)]
 		jitter := jitters[(s/len(procsList))%len(jitters)]
@@ -608,7 +608,13 @@ func c15Anchors(ctx *core.Ctx) {
 		{"file.go", "func getBufioReader(", []string{"pool := getBufioReaderPool(bufferSize)", "rbuf := pool.Get("}, map[string]int{"bufioReaderPool[": 0}},
 		{"schema.go", "func schemaOf(", []string{"cachedSchemas.Load(model)", "NewSchema(model.Name()", "cachedSchemas.LoadOrStore(model, schema)", "schema = actual.(*Schema)"}, nil},
 		{"schema.go", "func (c *cacheMap[K, V]) load(", []string{"oldMap, _ := c.value.Load().(map[K]V)", "newMap := make(map[K]V, len(oldMap)+1)", "maps.Copy(newMap, oldMap)", "newMap[k] = value", "c.value.Store(newMap)"}, map[string]int{"oldMap[k] =": 0}},
-		{"column_buffer_reflect.go", "func writeValueFuncOfGroup(", []string{"structFieldsCache.Load().(map[reflect.Type]map[string][]int)", "cachedFieldsBefore := cachedFields", "cachedFields = make(map[reflect.Type]map[string][]int, len(cachedFieldsBefore)+1)", "maps.Copy(cachedFields, cachedFieldsBefore)", "structFieldsCache.Store(cachedFields)"}, nil},
+		// copy-on-write caches (PqModel.CowCache): load, miss, new table in a new outer map, fill, and only then Store
+		{"column_buffer_reflect.go", "func writeValueFuncOfGroup(", []string{"structFieldsCache.Load().(map[reflect.Type]map[string][]int)", "structFields, ok := cachedFields[t]", "if !ok {", "cachedFieldsBefore := cachedFields", "structFields = make(map[string][]int, len(visibleStructFields))", "cachedFields = make(map[reflect.Type]map[string][]int, len(cachedFieldsBefore)+1)", "cachedFields[t] = structFields", "maps.Copy(cachedFields, cachedFieldsBefore)", "for _, visibleStructField := range visibleStructFields {", "structFields[name] = visibleStructField.Index", "}", "structFieldsCache.Store(cachedFields)", "fieldIndex, ok := structFields[w.fieldName]"},
+			map[string]int{"structFieldsCache.Store(": 1, "structFieldsCache.Load(": 1}},
+		// once-guarded lazy load (PqModel.OnceLoad): guard, loader assigning the captured variables, probe
+		{"bloom.go", "func newBloomFilter(", []string{"case *format.BloomFilterGzip:", "once         sync.Once", "decompressed []byte", "decompErr    error", "lazyCheck := func(", "once.Do(func() {", "file.ReadAt(buf, offset)", "decompressed, decompErr = LookupCompressionCodec(format.Gzip).Decode(nil, buf)", "})", "if decompErr != nil {", "return false, decompErr", "bloom.CheckSplitBlock(bytes.NewReader(decompressed), int64(len(decompressed)), x)"},
+			map[string]int{"once.Do(": 1, "atomic.": 0, "decompressed, decompErr =": 1}},
+		{"schema.go", "func (v *onceValue[T]) load(", []string{"v.once.Do(func() { v.value = f() })", "return v.value"}, nil},
 		// the row group writer protocol (PqModel.RowGroupProto): where awaitOrdinal / rowGroupOrdinal are written and read
 		{"writer.go", "func newConcurrentRowGroupWriter(", []string{"if w.encryption != nil {", "c.awaitOrdinal = true"}, map[string]int{"awaitOrdinal": 1}},
 		{"writer.go", "func (c *ColumnWriter) Flush()", []string{"if c.columnBuffer == nil || c.awaitOrdinal {", "return nil", "if c.columnBuffer.Len() > 0 {"}, nil},
@@ -628,7 +634,13 @@ func c15Anchors(ctx *core.Ctx) {
 		{"writer.go", "func (w *writer) writeRowGroup(", []string{"rowGroupIndex := len(w.rowGroups)", "rg.reset()", "fileOffset := w.writer.offset", "dataPageOffset := w.writer.offset", "c.offsetIndex.PageLocations[j].Offset += dataPageOffset", "io.Copy(&w.writer, c.pageBuffer)"}, nil},
 	}
 	poolNote := func(file string) string {
-		if file == "file.go" || file == "column_buffer_reflect.go" {
+		if file == "column_buffer_reflect.go" {
+			return " — copy-on-write cache: Props.C15.cow_cache_complete needs the new outer map to be stored after the new table has been filled; Props.C15.cow_store_before_fill_incomplete proves that a Store in front of the fill loop lets a second goroutine read the table while it is written and miss fields"
+		}
+		if file == "bloom.go" {
+			return " — once-guarded load: Props.C15.once_load_serial needs late callers to wait for the first caller's load (sync.Once); Props.C15.once_flag_slip_not_serial proves that a guard that lets them through makes them answer from the not yet loaded state"
+		}
+		if file == "file.go" {
 			return " — registry protocol: Props.C15.registry_linearizable needs every map access under the lock; Props.C15.registry_fast_path_conflict proves that an unlocked lookup admits a map read concurrent with a map write"
 		}
 		if file == "column_chunk.go" || file == "row_group.go" || file == "buffer.go" {
@@ -1022,7 +1034,10 @@ func c15GoEnv() []string {
 }
 
 // c15BuildRace builds cmd/pqrace with the race detector against the same tree as this binary.
-func c15BuildRace(limit time.Duration) (string, string, error) {
+func c15BuildRace(limit time.Duration) (string, string, error) { return c15BuildScenarioBinary(limit, true) }
+
+// c15BuildScenarioBinary builds cmd/pqrace with or without the race detector.
+func c15BuildScenarioBinary(limit time.Duration, race bool) (string, string, error) {
 	root, err := os.Getwd()
 	if err != nil {
 		return "", "", err
@@ -1033,9 +1048,14 @@ func c15BuildRace(limit time.Duration) (string, string, error) {
 		return "", "", fmt.Errorf("harness module file not found (%s): run through ./check", modfile)
 	}
 	bin := filepath.Join(root, ".build", "pqrace")
+	args := []string{"build", "-race"}
+	if !race {
+		bin = filepath.Join(root, ".build", "pqrace-norace")
+		args = []string{"build"}
+	}
 	c, cancel := context.WithTimeout(context.Background(), min(15*time.Minute, limit))
 	defer cancel()
-	cmd := exec.CommandContext(c, "go", "build", "-race", "-modfile", modfile, "-tags", "verif", "-o", bin, "./cmd/pqrace")
+	cmd := exec.CommandContext(c, "go", append(args, "-modfile", modfile, "-tags", "verif", "-o", bin, "./cmd/pqrace")...)
 	cmd.Dir = harness
 	cmd.Env = c15GoEnv()
 	out, err := cmd.CombinedOutput()
@@ -1046,44 +1066,91 @@ func c15BuildRace(limit time.Duration) (string, string, error) {
 }
 
 func RunC15Scenarios(ctx *core.Ctx) {
-	seeds := ctx.Scale(2, 12)
+	seeds := ctx.Scale(2, 8)
 	base := ctx.Seed * 1000
-	// ---- in-process (no race detector): serial output == concurrent output
-	for _, sc := range C15Scenarios {
-		if sc.SubprocessOnly {
-			continue
-		}
-		for s := 0; s < seeds; s++ {
-			if c15Remaining(ctx) < 0 {
-				ctx.Hist("skipped_for_time", "scenario "+sc.Name)
-				ctx.Observe("scenarios-skipped-for-time", "the time budget of the harness was used up (slow machine): some in-process scenario runs were skipped", nil)
-				break
+	// the -race build of cmd/pqrace runs in the background while the in-process runs go on
+	type built struct {
+		bin, out string
+		err      error
+	}
+	buildDone := make(chan built, 1)
+	go func() {
+		bin, out, err := c15BuildRace(max(2*time.Minute, c15Remaining(ctx)-time.Minute))
+		buildDone <- built{bin, out, err}
+	}()
+	// the scenarios that can kill the process (SubprocessOnly) also run without the race detector, in
+	// a plain build of the same command: their own oracles (result vs input) are what reports there
+	plainDone := make(chan struct{})
+	go func() {
+		defer close(plainDone)
+		bin, out, err := c15BuildScenarioBinary(max(2*time.Minute, c15Remaining(ctx)-time.Minute), false)
+		if err != nil {
+			if errors.Is(err, context.DeadlineExceeded) {
+				ctx.Observe("plain-build-timeout", "go build of cmd/pqrace (without -race) did not finish in time (slow machine)", map[string]any{"output": out})
+			} else {
+				ctx.Fail("L2", "race-build-failed", "go build of cmd/pqrace (without -race) failed: "+err.Error(), map[string]any{"output": out})
 			}
-			seed := base + int64(s)
-			a, b, err := func() (a, b string, err error) {
-				defer func() {
-					if p := recover(); p != nil {
-						err = fmt.Errorf("panic: %v", p)
+			return
+		}
+		var wg sync.WaitGroup
+		for _, sc := range C15Scenarios {
+			if !sc.SubprocessOnly {
+				continue
+			}
+			for _, procs := range []int{0, 4} {
+				wg.Add(1)
+				go func(name, doc string, procs int) {
+					defer wg.Done()
+					c15RaceRun(ctx, bin, name, doc, base+int64(procs)*100, 3*seeds, procs, max(time.Minute, c15Remaining(ctx)))
+				}(sc.Name, sc.Doc, procs)
+			}
+		}
+		wg.Wait()
+	}()
+	defer func() { <-plainDone }()
+	// ---- in-process (no race detector): serial output == concurrent output; a few scenarios at a time
+	{
+		var wg sync.WaitGroup
+		sem := make(chan struct{}, 3)
+		for _, sc := range C15Scenarios {
+			if sc.SubprocessOnly {
+				continue
+			}
+			wg.Add(1)
+			go func(sc c15Scenario) {
+				defer wg.Done()
+				sem <- struct{}{}
+				defer func() { <-sem }()
+				for s := 0; s < seeds; s++ {
+					if c15Remaining(ctx) < 0 {
+						ctx.Hist("skipped_for_time", "scenario "+sc.Name)
+						ctx.Observe("scenarios-skipped-for-time", "the time budget of the harness was used up (slow machine): some in-process scenario runs were skipped", nil)
+						break
 					}
-				}()
-				return C15RunScenario(sc.Name, seed)
-			}()
-			ctx.Case("scenario "+sc.Name+" "+fmt.Sprint(seed), true)
-			ctx.Hist("scenario", sc.Name)
-			if err != nil {
-				ctx.Fail("L1", c15ScenarioKey(sc.Name, err.Error()), sc.Doc+": "+err.Error(),
-					map[string]any{"scenario": sc.Name, "seed": seed, "serial": a, "concurrent": b,
-						"replay": fmt.Sprintf(".build/pqrace -scenario %s -seed %d", sc.Name, seed)})
-			}
+					seed := base + int64(s)
+					a, b, err := func() (a, b string, err error) {
+						defer func() {
+							if p := recover(); p != nil {
+								err = fmt.Errorf("panic: %v", p)
+							}
+						}()
+						return C15RunScenario(sc.Name, seed)
+					}()
+					ctx.Case("scenario "+sc.Name+" "+fmt.Sprint(seed), true)
+					ctx.Hist("scenario", sc.Name)
+					if err != nil {
+						ctx.Fail("L1", c15ScenarioKey(sc.Name, err.Error()), sc.Doc+": "+err.Error(),
+							map[string]any{"scenario": sc.Name, "seed": seed, "serial": a, "concurrent": b,
+								"replay": fmt.Sprintf(".build/pqrace -scenario %s -seed %d", sc.Name, seed)})
+					}
+				}
+			}(sc)
 		}
+		wg.Wait()
 	}
 	// ---- the same scenarios in a -race build, as subprocesses
-	if c15Remaining(ctx) < 2*time.Minute {
-		ctx.Hist("race_build", "skipped-for-time")
-		ctx.Observe("race-build-timeout", "no time left for the -race build (slow machine): the scenarios ran without the race detector only", nil)
-		return
-	}
-	bin, out, err := c15BuildRace(c15Remaining(ctx) - time.Minute)
+	bt := <-buildDone
+	bin, out, err := bt.bin, bt.out, bt.err
 	if errors.Is(err, context.DeadlineExceeded) {
 		// a slow machine is not a finding: the race half of the sub-check did not run
 		ctx.Hist("race_build", "timeout")
@@ -1097,11 +1164,20 @@ func RunC15Scenarios(ctx *core.Ctx) {
 	ctx.Hist("race_build", "ok")
 	timeout := time.Duration(ctx.Scale(420, 900)) * time.Second // expiry is never a verdict (see c15RaceRun)
 	var wg sync.WaitGroup
-	sem := make(chan struct{}, max(2, runtime.NumCPU()/4))
+	sem := make(chan struct{}, max(2, runtime.NumCPU()/2))
+	// the seeds are split between the two GOMAXPROCS settings (0 = all processors, 2)
+	half := (seeds + 1) / 2
 	for _, sc := range C15Scenarios {
-		for _, procs := range []int{0, 2} {
+		for k, procs := range []int{0, 2} {
+			first, n := base, half
+			if k == 1 {
+				first, n = base+int64(half), seeds-half
+			}
+			if n <= 0 {
+				continue
+			}
 			wg.Add(1)
-			go func(name, doc string, procs int) {
+			go func(name, doc string, procs int, first int64, n int) {
 				defer wg.Done()
 				sem <- struct{}{}
 				defer func() { <-sem }()
@@ -1111,8 +1187,8 @@ func RunC15Scenarios(ctx *core.Ctx) {
 					ctx.Observe("race-run-skipped-for-time", "the time budget of the harness was used up (slow machine): some -race scenario runs were not started", nil)
 					return
 				}
-				c15RaceRun(ctx, bin, name, doc, base, seeds, procs, min(timeout, left))
-			}(sc.Name, sc.Doc, procs)
+				c15RaceRun(ctx, bin, name, doc, first, n, procs, min(timeout, left))
+			}(sc.Name, sc.Doc, procs, first, n)
 		}
 	}
 	wg.Wait()
@@ -1154,13 +1230,18 @@ func c15RaceRun(ctx *core.Ctx, bin, name, doc string, seed int64, n, procs int, 
 			}
 		}
 	}
-	ctx.HistN("race_runs", name, int64(strings.Count(text, "OK scenario=")))
+	plain := strings.HasSuffix(bin, "-norace")
+	if plain {
+		ctx.HistN("plain_subprocess_runs", name, int64(strings.Count(text, "OK scenario=")))
+	} else {
+		ctx.HistN("race_runs", name, int64(strings.Count(text, "OK scenario=")))
+	}
 	tail := text
 	if len(tail) > 9000 {
 		tail = tail[:3000] + "\n...\n" + tail[len(tail)-6000:]
 	}
 	detail := map[string]any{"scenario": name, "seed": lastSeed, "gomaxprocs": procs, "output": tail,
-		"replay": fmt.Sprintf("GORACE=halt_on_error=1 .build/pqrace -scenario %s -seed %d -procs %d", name, lastSeed, procs)}
+		"replay": fmt.Sprintf("GORACE=halt_on_error=1 %s -scenario %s -seed %d -procs %d", strings.TrimPrefix(bin, filepath.Dir(filepath.Dir(bin))+"/"), name, lastSeed, procs)}
 	switch {
 	case strings.Contains(text, "WARNING: DATA RACE"):
 		ctx.Fail("L1", "data-race "+name, doc+": the race detector reports a data race", detail)
@@ -1185,7 +1266,9 @@ func c15RaceRun(ctx *core.Ctx, bin, name, doc string, seed int64, n, procs int, 
 		ctx.Hist("race_run_unfinished", name)
 		ctx.Observe("race-run-unfinished "+name, "the -race subprocess was still running when the harness gave up waiting (slow machine); no verdict is derived from it", detail)
 	case strings.Contains(text, "MISMATCH "):
-		ctx.Fail("L1", c15ScenarioKey(name, text[strings.Index(text, "MISMATCH "):]), doc+": the concurrent output differs from the serial output, or from the result the input determines (race build)", detail)
+		ctx.Fail("L1", c15ScenarioKey(name, text[strings.Index(text, "MISMATCH "):]), doc+": the concurrent output differs from the serial output, or from the result the input determines (subprocess)", detail)
+	case strings.Contains(text, "fatal error: concurrent map"):
+		ctx.Fail("L1", "concurrent-map-access "+name, doc+": the Go runtime aborted the process: a map shared between goroutines was read or written while another goroutine wrote it", detail)
 	case strings.Contains(text, "panic:") || strings.Contains(text, "fatal error:"):
 		ctx.Fail("L1", "panic "+name, doc+": panic", detail)
 	case err != nil:
